@@ -28,6 +28,7 @@ import (
 	"ariga.io/atlas/cmd/atlas/internal/cmdlog"
 	cmdmigrate "ariga.io/atlas/cmd/atlas/internal/migrate"
 	"ariga.io/atlas/cmd/atlas/internal/migrate/ent/revision"
+	"ariga.io/atlas/internal/verifhook"
 	"ariga.io/atlas/sql/migrate"
 	"ariga.io/atlas/sql/schema"
 	"ariga.io/atlas/sql/sqlclient"
@@ -1329,6 +1330,7 @@ func (tx *tx) driverFor(ctx context.Context, f migrate.File) (migrate.Driver, mi
 	if err != nil {
 		return nil, nil, err
 	}
+	verifhook.At("driver_for", "v", f.Version(), "mode", mode, "intx", tx.tx != nil)
 	switch mode {
 	case txModeNone:
 		return tx.c.Driver, tx.rrw, nil
@@ -1368,9 +1370,11 @@ func (tx *tx) driverFor(ctx context.Context, f migrate.File) (migrate.Driver, mi
 // mayRollback may roll back a transaction depending on the given transaction mode.
 func (tx *tx) mayRollback(err error) error {
 	if tx.tx != nil && err != nil {
+		verifhook.At("before_rollback")
 		if err2 := tx.tx.Rollback(); err2 != nil {
 			err = fmt.Errorf("%v: %w", err2, err)
 		}
+		verifhook.At("after_rollback")
 	}
 	return err
 }
@@ -1390,6 +1394,8 @@ func (tx *tx) commit() error {
 		return nil
 	}
 	defer func() { tx.tx, tx.txrrw = nil, nil }()
+	verifhook.At("before_commit")
+	defer verifhook.At("after_commit")
 	return tx.tx.Commit()
 }
 
